@@ -73,6 +73,14 @@ replies client::connect(std::string_view hostname,
     replies replies;
     reply reply = recv(replies);
 
+    /* 120 Service ready in nnn minutes. The 220 reply follows when the server
+     * is ready.
+     */
+    if (reply.get_code() == 120)
+    {
+        reply = recv(replies);
+    }
+
     if (reply.is_negative())
     {
         return replies;
@@ -119,6 +127,14 @@ reply client::logout()
     std::string command = make_command("REIN");
 
     reply reply = process_command(command);
+
+    /* 120 Service ready in nnn minutes. The 220 reply follows when the server
+     * is ready.
+     */
+    if (reply.get_code() == 120)
+    {
+        reply = recv();
+    }
 
     /* Switch the control connection to non-SSL mode. */
     if (reply.is_positive() && control_connection_.is_ssl())
